@@ -44,6 +44,7 @@ func runC09(p *load.Program, r *oblig.Report) {
 	c09FetchLoopTestsContext(p, r)
 	c09WriterLookupDeadline(p, r)
 	c09RefreshHasDeadline(p, r, "C09.R11 the metadata refresh cannot strand a connection")
+	shareRules(r, "C09", "C09.R12 the group is left on every exit of its loop (C15.R5)", func(sub *oblig.Report) { c15RunLoop(p, sub) })
 	shareRules(r, "C09", "C09.R10 closing a generation waits for its functions (C15.R2)", func(sub *oblig.Report) { c15StartClose(p, sub) })
 	shareRules(r, "C09", "C09.R9 the group is left with the member id the coordinator knows (C15.R9)", func(sub *oblig.Report) { c15KeepMemberID(p, sub, "C15.R9 the member id survives a failed re-join") })
 }
